@@ -1480,17 +1480,12 @@ class FortranReaderBase:
                     label = int(s)
                 if not self._format.is_f77:
                     m = _CONSTRUCT_NAME_RE.match(line[6:])
-                    if m and (
-                        line[6:][m.end() :].strip()
-                        or not _is_fix_cont(
-                            self.get_next_line(ignore_empty=True, ignore_comments=True)
-                        )
-                    ):
+                    if m and line[6:][m.end() :].strip():
                         name = m.group("name")
                         line = line[:6] + line[6:][m.end() :].lstrip()
-                    # Otherwise the line ends in what looks like a construct
-                    # name but the statement is continued: the joined
-                    # statement is examined once it is complete.
+                    # Otherwise, if the line ends in what looks like a
+                    # construct name, the statement may be continued: the
+                    # joined statement is examined once it is complete.
                 if not line[6:].strip():
                     # check for a blank line
                     if name is not None:
@@ -1577,11 +1572,14 @@ class FortranReaderBase:
                         )
                         logging.getLogger(__name__).warning(message)
             line_content = "".join(lines)
-            if name is None and len(lines) > 1:
-                # The construct name may be separated from its colon by a
-                # line continuation, in which case it was not found when
-                # the first physical line was examined.
+            if name is None:
+                # The construct name may be separated from its colon, or
+                # from the statement, by a line continuation, in which case
+                # it was not taken when the first physical line was examined.
                 name, line_content = extract_construct_name(line_content)
+                if name is not None and not line_content.strip():
+                    self.error("No construct following construct-name.")
+                    return self.comment_item("", startlineno, endlineno)
             return self.line_item(line_content, startlineno, endlineno, label, name)
 
         # line is free format or fixed format with f2py directive (that
